@@ -1,0 +1,21 @@
+//go:build verif
+
+package crypto
+
+// Contracts checked by /verif (gvc). This file contains comments only and is compiled only with -tags verif.
+//
+// The hash functions are external code (golang.org/x/crypto/sha3, crypto/sha256): ASSUMED to be functions of the input bytes
+// producing 32 bytes. sha3b / sha256b are the uninterpreted digest bytes.
+//@ spec sha3b(v int, j int) int
+//@ spec sha256b(v int, j int) int
+
+//@ func Hash(data)
+//@   trusted
+//@   ensures len(result) == 32 && fresh(result)
+//@   ensures len(data) == 1 ==> (forall j int :: 0 <= j && j < 32 ==> result[j] == sha3b(bytesval(data[0]), j))
+//@   modifies nothing
+//@ func HashSHA256(data)
+//@   trusted
+//@   ensures len(result) == 32 && fresh(result)
+//@   ensures len(data) == 1 ==> (forall j int :: 0 <= j && j < 32 ==> result[j] == sha256b(bytesval(data[0]), j))
+//@   modifies nothing
